@@ -32,6 +32,8 @@ type Opts struct {
 	ValueGetters  bool // getters with value (non-pointer) types
 	MainPkg       bool // leave meta.pkg unset (package main)
 	ContextualBias bool
+	TagBias       bool // many tags, priorities with ties, several decorators
+	ScopeProb     float64
 }
 
 func DefaultOpts() Opts {
@@ -375,6 +377,9 @@ func Behaviour(r *rand.Rand, o Opts) *cfg.Config {
 	// decorators
 	if o.Decorators {
 		nd := g.pick(4)
+		if o.TagBias {
+			nd = 1 + g.pick(5)
+		}
 		for i := 0; i < nd; i++ {
 			tag := g.tags[g.pick(len(g.tags))]
 			if g.chance(0.08) {
@@ -490,8 +495,12 @@ func (g *G) service(name string, before, params []string) cfg.Service {
 		}
 	}
 	// tags
+	tagP := 0.3
+	if o.TagBias {
+		tagP = 0.6
+	}
 	for _, t := range g.tags {
-		if g.chance(0.3) {
+		if g.chance(tagP) {
 			tag := cfg.Tag{Name: t}
 			if g.chance(0.6) {
 				tag.Prio = cfg.P(choose(g, -2147483648, -5, -1, 0, 0, 1, 1, 5, 2147483647))
@@ -499,7 +508,11 @@ func (g *G) service(name string, before, params []string) cfg.Service {
 			s.Tags = append(s.Tags, tag)
 		}
 	}
-	if o.Scopes && g.chance(0.35) {
+	sp := 0.35
+	if o.ScopeProb > 0 {
+		sp = o.ScopeProb
+	}
+	if o.Scopes && g.chance(sp) {
 		if o.ContextualBias {
 			s.Scope = cfg.P(choose(g, "shared", "contextual", "contextual", "non_shared"))
 		} else {
